@@ -53,12 +53,16 @@ MANIFEST = dict(
          "form write_spec 0 true. C03_sm_write_cap_bound (c03_cap_domb: only 'no two objects in one written cell', more than 384 rows "
          "allowed): same conclusion except that each object is read at the time of row floor(position*rows), whose beat wb satisfies "
          "wb <= beat < wb + 4/384. Non-vacuity examples for both domains with literal rendered texts. The runner evaluates the exact "
-         "theorem's conclusion on the implementation's text for every generated case inside c03_domb. READ-BACK (C03 o C02, "
-         "C03_sm_write_read_back_partial): for every mapset in c03_domb and every exact rendering of its tokens that lies in the reader's "
-         "decidable domain c02_domb, SMMapSet.read returns the same charts (header fields, per kind the same objects as a permutation, the "
-         "same #OFFSET); the hypothesis c02_domb(text) is not derived from c03_domb (missing lemma written_text_in_reader_domain, see "
-         "docs/C03.md) - its writer-dependent part (reader dialect, header items, rows a multiple of 4) is evaluated by the runner on every "
-         "text the implementation wrote for a mapset in c03_domb. Not proved: positive rendering tolerance, tempo beats that are not "
+         "theorem's conclusion on the implementation's text for every generated case inside c03_domb. READ-BACK (C03 o C02), closed: "
+         "C03_written_text_in_reader_domain - for every mapset in c03_domb whose tempo beats lie on the reader's 1/48 grid (readback_guard, "
+         "decidable on the mapset) every exact rendering of the written tokens is in the reader's decidable domain c02_domb; hence "
+         "C03_sm_write_read_back - SMMapSet.read of it returns the same charts (header fields, per kind the same objects as a permutation) and "
+         "the same #OFFSET, no hypothesis on the text (C03_sm_write_read_back_partial, with the hypothesis and without the guard, kept for its "
+         "importers). The guard is the reach of C02's theorem, not a loss: C03_read_back_guard_not_necessary (tempo change at beat 1/5, read "
+         "back unchanged by model and /repo). Losses of the pair are text fields outside tame_str: C03_read_back_refuted_semicolon_title "
+         "(title 'a;b' comes back 'a'; charts unchanged; replayed on /repo). The runner evaluates c02_domb on every text the implementation "
+         "wrote for a mapset in c03_domb and readback_guard (outside the guard: reader dialect, header items, rows a multiple of 4). "
+         "Not proved: positive rendering tolerance, tempo beats that are not "
          "six-decimal (bound evaluated per run), binary64 rounding.",
     note="Trusted: Coq kernel+VM, generator/serialiser, table translator, repr(float) as a value oracle; binary64 rounding measured not proved. "
          "Former findings sm-selectable-no (16f3fe3), sm-pad-width (d872b70), rate-offset-unscaled (0398fe5) are fixed; the old "
